@@ -1,13 +1,13 @@
 package main
 
 import (
-	"go/scanner"
+	goscanner "go/scanner"
 	"go/token"
 	"strings"
 )
 
 type goScanner struct {
-	s scanner.Scanner
+	s goscanner.Scanner
 }
 
 func (g *goScanner) init(f *token.File, src []byte) { g.s.Init(f, src, nil, 0) }
